@@ -1959,7 +1959,7 @@ def c18(rep, tier, seed, wd, replay):
     dh = build_harness(wd)
     keys = hist.interop_keys(dh)
     rng = Rng(seed * 31 + 18)
-    n = tier_sizes(tier, 80, 1500)
+    n = tier_sizes(tier, 140, 1500)
     scen = [listing.gen_scenario(rng.fork(), keys) for _ in range(n)]
     lines = []
     for cfg, ops, accts in scen:
@@ -2816,7 +2816,7 @@ THEOREMS.update({
     "C20": ("Dirk.Props.C20", ["Dirk.C20_sites_covered", "Dirk.C20_domain_slice_safe", "Dirk.C20_alloc_bounded", "Dirk.C20_dkg_non_peer",
                                "Dirk.C20_handlers_shape", "Dirk.C20_kernel_is_source", "Dirk.C20_legacy_counterexample"]),
     "C19": ("Dirk.Props.C19", ["Dirk.C19_policy", "Dirk.C19", "Dirk.facts_tls_clientAuth", "Dirk.facts_tls_minVersion", "Dirk.facts_tls_clientCAs",
-                               "Dirk.facts_tls_creds", "Dirk.facts_services", "Dirk.facts_interceptor", "Dirk.facts_clientName"]),
+                               "Dirk.facts_tls_creds", "Dirk.facts_tls_fields", "Dirk.facts_services", "Dirk.facts_interceptor", "Dirk.facts_clientName"]),
     "C18": ("Dirk.Props.C18Whole", ["Dirk.C18_sound", "Dirk.C18_complete", "Dirk.C18_fields", "Dirk.C18_dynamic",
                                     "Dirk.C18_complete_whole_name", "Dirk.C18_anchor_only_widens"]),
     "C14": ("Dirk.Props.C14", ["Dirk.C14", "Dirk.C14_proposals", "Dirk.C14_threshold_from_generation"]),
@@ -2826,7 +2826,7 @@ THEOREMS.update({
                                "Dirk.Dkg.C17_commit_complete", "Dirk.Dkg.C17_independent_names", "Dirk.Dkg.C17_lifecycle_all_histories",
                                "Dirk.Dkg.C17_kernel_is_source", "Dirk.Dkg.C17_legacy_counterexample"]),
     "C03": ("Dirk.Props.C03", ["Dirk.C03_recorded_before_release", "Dirk.C03_refuses_after_crash", "Dirk.C03_released_never_slashable",
-                               "Dirk.facts_sync_writes", "Dirk.facts_action_bytes"]),
+                               "Dirk.facts_sync_writes", "Dirk.facts_action_bytes", "Dirk.facts_result_switches_total"]),
     "C04": ("Dirk.Props.C04", ["Dirk.Conc.C04_mutual_exclusion", "Dirk.Conc.C04_commit_atomic", "Dirk.Conc.C04_linearizable",
                                "Dirk.Conc.C04_real_time_order", "Dirk.C04_footprint_attest", "Dirk.C04_trace_is_protocol"]),
     "C15": ("Dirk.Props.C15", ["Dirk.Conc.C15_progress", "Dirk.Conc.C15_measure", "Dirk.Conc.C15_complete", "Dirk.Conc.C15_needs_global"]),
@@ -2849,7 +2849,8 @@ THEOREMS.update({
                                "Dirk.C05_propose_only_proposer", "Dirk.C05_logs", "Dirk.C05_kernel_is_source"]),
     "C06": ("Dirk.Props.C06", ["Dirk.C06_att", "Dirk.C06_prop", "Dirk.C06_sign", "Dirk.C06_atts", "Dirk.C06_msign",
                                "Dirk.C06_att_fault", "Dirk.C06_prop_fault", "Dirk.C06_batch_store_fault",
-                               "Dirk.C06_batch_fetch_fault", "Dirk.C06_shape_atts", "Dirk.C06_shape_msign"]),
+                               "Dirk.C06_batch_fetch_fault", "Dirk.C06_shape_atts", "Dirk.C06_shape_msign",
+                               "Dirk.facts_rules_results", "Dirk.facts_result_switches_total", "Dirk.facts_result_switches_present"]),
 })
 
 HIST_REPLAY = ("C01", "C02", "C03", "C05", "C06", "C07", "C09", "C10", "C11", "C19", "C20")     # their own engines take a replay history / probe
